@@ -11,7 +11,7 @@ ENUM_LITS = ["idle", "run", "stop", "s0", "s1", "s2", "wait_ack", "done", "err",
 
 
 class Gen:
-    def __init__(self, rng, allow_alias=True, allow_structs=True, max_width=70):
+    def __init__(self, rng, allow_alias=True, allow_structs=True, max_width=70, alias_prob=0.15):
         self.rng = rng
         self.natoms = 0
         self.kinds = {}            # atom -> 'nine' | 'bit' | ('enum', n) | 'int' | 'real'
@@ -19,6 +19,7 @@ class Gen:
         self.allow_alias = allow_alias
         self.allow_structs = allow_structs
         self.max_width = max_width
+        self.alias_prob = alias_prob
 
     def atom(self, kind):
         self.natoms += 1
@@ -119,7 +120,7 @@ class Gen:
         rng = self.rng
         pk = rng.choice([16, 16, 16, 17, 18, 19, 20, 21])
         name = rng.choice(NAMES)
-        if self.allow_alias and self.vecs and rng.random() < 0.15:
+        if self.allow_alias and self.vecs and rng.random() < self.alias_prob:
             t, ids = rng.choice(self.vecs)
             if t[0] in ("LV", "BV") and len(ids) >= 2 and rng.random() < 0.6:
                 # a sub-range of an earlier vector
@@ -199,3 +200,29 @@ def gen_case(rng, nitems=None, nsteps=None, **kw):
     w = ghw_writer.Writer(rng, big_endian=rng.random() < 0.3, version=rng.choice([0, 1]))
     data = w.serialise(items, g.natoms, g.kinds, snap, steps)
     return ghw_writer.design_tokens(items, g.natoms, snap, steps), data
+
+
+def malform(rng, data):
+    """truncations anywhere; byte changes only behind the header sections (count fields in the header sections
+    size allocations: a flipped count would abort the process instead of returning)"""
+    eoh = data.find(b"EOH\x00")
+    kind = rng.choice(["trunc", "trunc", "flip", "flip", "flip2", "tag", "notail"])
+    if kind == "trunc":
+        return data[:rng.randint(1, len(data) - 1)]
+    if kind == "notail":
+        return data[:len(data) - 12] + bytes(12)
+    b = bytearray(data)
+    lo = eoh + 4
+    if lo >= len(b) - 1:
+        return data[:rng.randint(0, len(data) - 1)]
+    if kind == "tag":
+        for t in (b"ESN\x00", b"ECY\x00", b"SNP\x00", b"CYC\x00", b"EOD\x00", b"DIR\x00", b"TAI\x00"):
+            i = data.find(t, lo)
+            if i >= 0 and rng.random() < 0.4:
+                b[i + rng.randint(0, 2)] ^= 0x20
+                return bytes(b)
+        return bytes(b[:-1])
+    for _ in range(1 if kind == "flip" else 3):
+        i = rng.randint(lo, len(b) - 1)
+        b[i] = rng.choice([0, 1, 2, 8, 9, 0x7F, 0x80, 0xFF, b[i] ^ (1 << rng.randint(0, 7))])
+    return bytes(b)
